@@ -162,8 +162,14 @@ int main(int argc, char** argv) {
     } else {
       x = string("a\"") + (char)A.u("in_ch") + "\\z";
     }
+    // the counterexample first, then every byte value in the middle of a short string with both flag values (the verifier's character is
+    // over an abstract "%02hhX" model and need not be one on which the real formatting differs)
+    std::vector<std::pair<string, bool>> cases = {{x, flag}};
+    for (int f2 = 0; f2 < 2; f2++) for (int c = 0; c < 256; c++) cases.push_back({string("a/") + (char)c + "z", f2 != 0});
+    for (auto& cs : cases) {
+    const string& x = cs.first; bool flag = cs.second;
     string got = m == "escape_quotes" ? phosg::escape_quotes(x) : m == "escape_controls" ? phosg::escape_controls(x, flag) : phosg::escape_url(x, flag);
-    printf("%s(%s%s) = %s\n", m.c_str(), show(x).c_str(), m == "escape_quotes" ? "" : flag ? ", true" : ", false", show(got).c_str());
+    if (&cs == &cases[0]) printf("%s(%s%s) = %s\n", m.c_str(), show(x).c_str(), m == "escape_quotes" ? "" : flag ? ", true" : ", false", show(got).c_str());
     for (size_t i = 0; i < got.size(); i++) {
       unsigned char c = got[i];
       if (m == "escape_quotes") {
@@ -179,7 +185,8 @@ int main(int argc, char** argv) {
     if (m != "escape_quotes") {
       string back;
       bool ok = m == "escape_controls" ? unescape_c(got, back) : unescape_url(got, back);
-      RCHECK(ok && back == x, "the reference unescaper does not recover the input (%s)", ok ? show(back).c_str() : "malformed escape");
+      RCHECK(ok && back == x, "the reference unescaper does not recover the input %s from %s (%s)", show(x).c_str(), show(got).c_str(), ok ? show(back).c_str() : "malformed escape");
+    }
     }
   }
   else if (m == "netloc") {
